@@ -13,7 +13,7 @@ import (
 
 func init() {
 	register("C27", propMeta{
-		Explanation:  "Decides the discipline of the code that writes the passive side: (R1) passive-writer siblings: every function that writes under formatPassiveFolderEntity or through a tracker copy with the folder toggler inverted (registry Replicate, store-repository Replicate, the fileIO replay `replicate`) must be a no-op when replication is off OR has already failed (`!replicate || FailedToReplicate`), and must call handleFailedToReplicate on every failed passive write, so that one failure turns replication off instead of repeating against a broken drive; (R2) a passive failure never fails a commit: the replication closures of phase2Commit return nil on every path and run only after the commit point; (R3) ReinstateFailedDrives runs its steps in the order the catch-up depends on: start logging commit changes, copy stores and registry segments, fast-forward until no log is left, turn replication on, fast-forward again; (R4) the reinstating copy copies every registry segment file of every store unconditionally: in copyFilesByExtension each directory entry with the extension reaches copyFile or an error return - no entry is skipped on the strength of the target's current state (size, time), which says nothing about a partially replicated commit; and what it copies is read from the active side, i.e. before the folder toggler is flipped towards the passive side. (R5) fastForward replays the commit-change logs oldest first: ByModTime.Less's direction composed with the direction of the replay loop is ascending modification time.",
+		Explanation:  "Decides the discipline of the code that writes the passive side: (R1) passive-writer siblings: every function that writes under formatPassiveFolderEntity or through a tracker copy with the folder toggler inverted (registry Replicate, store-repository Replicate, the fileIO replay `replicate`) must be a no-op when replication is off OR has already failed (`!replicate || FailedToReplicate`), and must call handleFailedToReplicate on every failed passive write, so that one failure turns replication off instead of repeating against a broken drive; (R2) a passive failure never fails a commit: the replication closures of phase2Commit return nil on every path and run only after the commit point; (R3) ReinstateFailedDrives runs its steps in the order the catch-up depends on: start logging commit changes, copy stores and registry segments, fast-forward until no log is left, turn replication on, fast-forward again; (R4) the reinstating copy copies every registry segment file of every store unconditionally: in copyFilesByExtension each directory entry with the extension reaches copyFile or an error return - no entry is skipped on the strength of the target's current state (size, time), which says nothing about a partially replicated commit; and what it copies is read from the active side, i.e. before the folder toggler is flipped towards the passive side. (R5) fastForward replays the commit-change logs oldest first: ByModTime.Less's direction composed with the direction of the replay loop is ascending modification time. (R7) readStatusFromHomeFolder decides the active folder by where the newest status file is: every path from a readReplicationStatus call to the return assigns ActiveFolderToggler from a value saved before the read, so the (pre-flip) toggler that failover stores in the file cannot send a freshly started process back to the failed drive.",
 		DoesNotCover: "Equality of the passive copy's contents after arbitrary histories and failover behaviour are runtime matters; what fast-forward applies is not decided.",
 	}, runC27)
 }
@@ -430,5 +430,44 @@ func runC27(c *Ctx) {
 		fs2 := w.Fn("fs.replicationTracker.syncWithL2Cache")
 		c.Analysed(fs2)
 		c.Check(w.Reaches(fs2, keyIn("fs.ReplicationTrackedDetails.isEqual")), r6, "syncWithL2Cache decides the push with isEqual", fs2.Decl.Pos(), "calls isEqual", "syncWithL2Cache no longer uses isEqual (rule has nothing to decide)", nil)
+	}
+
+	r7 := c.Rule("R7", "a process started after a failover uses the folder failed over to: readStatusFromHomeFolder decides the active folder by WHERE the (newest) status file is and never lets the toggler value stored in the file override that - failover writes the file before it flips the toggler - so every path from a readReplicationStatus call to the return assigns ActiveFolderToggler from a value saved before the read", 2)
+	{
+		fr := w.Fn("fs.replicationTracker.readStatusFromHomeFolder")
+		g := w.G(fr)
+		c.Analysed(fr)
+		info := fr.Pkg.TypesInfo
+		tog := w.Field("fs", "ReplicationTrackedDetails", "ActiveFolderToggler")
+		reads := g.callNodes("fs.replicationTracker.readReplicationStatus")
+		c.Check(len(reads) >= 2, r7, "readStatusFromHomeFolder: status reads inventoried", fr.Decl.Pos(), fmt.Sprintf("%d reads", len(reads)), fmt.Sprintf("%d readReplicationStatus calls (2 known: passive-only and newest-file)", len(reads)), nil)
+		// an assignment of the toggler whose right-hand side does not read the (just overwritten) field
+		override := func(n *GNode) bool {
+			as, ok := n.Ast.(*ast.AssignStmt)
+			if !ok || len(as.Lhs) != len(as.Rhs) {
+				return false
+			}
+			for i, l := range as.Lhs {
+				if fieldOfSelector(info, l) != tog {
+					continue
+				}
+				mentions := false
+				ast.Inspect(as.Rhs[i], func(x ast.Node) bool {
+					if e, ok := x.(ast.Expr); ok && fieldOfSelector(info, e) == tog {
+						mentions = true
+					}
+					return true
+				})
+				if !mentions {
+					return true
+				}
+			}
+			return false
+		}
+		for _, rd := range reads {
+			offs := g.MustFollow([]*GNode{rd.n}, override, func(n *GNode) bool { return n.Exit })
+			c.Offences(g, offs, r7, fmt.Sprintf("readStatusFromHomeFolder: readReplicationStatus #%d is followed by the location-decided toggler", ordinalOf(w, fr, rd.cs)), rd.n.Ast.Pos(), "toggler restored from the value chosen by location",
+				"the toggler stored in the status file survives the read: failover() writes replstat.txt into the passive folder BEFORE it flips ActiveFolderToggler, so the file in the newly active folder names the failed folder - a process started after the failover (cold L2 cache) comes up on the drive that failed and does not see the commits made since")
+		}
 	}
 }
